@@ -73,6 +73,14 @@ fn main() {
             }
         }
         let (wfam, ws) = gen::weights(&mut r, n);
+        // f64 weights are the integer family times a scale: mostly 1, sometimes tiny
+        // (around f64::EPSILON, subnormal), fractional or huge -- all finite, non-negative,
+        // positive total, sums far from overflow: inside the usage contract.
+        let wscale: f64 = if r.chance(1, 6) {
+            *r.pick(&[2.220446049250313e-16, 1e-17, 1e-300, 5e-321, 0.1, 1e15, 1e290])
+        } else {
+            1.0
+        };
         let ckk_len = ws.len().min(12);
         let mut params = String::new();
         let mut input = String::new();
@@ -93,7 +101,7 @@ fn main() {
                 let fw = r.chance(1, 3);
                 parts = 1 << iter;
                 fam = format!("{pf}/{wfam}");
-                params = format!("\"iter_count\":{iter},\"tolerance\":{tol},\"f64_weights\":{fw}");
+                params = format!("\"iter_count\":{iter},\"tolerance\":{tol},\"f64_weights\":{fw},\"weight_scale\":{wscale:e}");
                 input = format!("\"points\":{},\"weights\":{}", gen::json_points(&pts), json_i64s(&ws));
                 let rib = alg.starts_with("rib");
                 Box::new(move || {
@@ -111,7 +119,7 @@ fn main() {
                             }
                         };
                     }
-                    let wf: Vec<f64> = ws.iter().map(|x| *x as f64).collect();
+                    let wf: Vec<f64> = ws.iter().map(|x| *x as f64 * wscale).collect();
                     let res = if d == 2 {
                         let pts = p2(&pts);
                         if fw { go!(pts, wf.clone()) } else { go!(pts, ws.clone()) }
@@ -141,11 +149,11 @@ fn main() {
                 };
                 parts = k;
                 fam = format!("{pf}/{wfam}");
-                params = format!("\"part_count\":{k},\"order\":{order}");
+                params = format!("\"part_count\":{k},\"order\":{order},\"weight_scale\":{wscale:e}");
                 input = format!("\"points\":{},\"weights\":{}", gen::json_points(&pts), json_i64s(&ws));
                 Box::new(move || {
                     let mut p = vec![usize::MAX; n];
-                    let wf: Vec<f64> = ws.iter().map(|x| *x as f64).collect();
+                    let wf: Vec<f64> = ws.iter().map(|x| *x as f64 * wscale).collect();
                     let mut h = coupe::HilbertCurve { part_count: k, order };
                     let res = if d == 2 {
                         h.partition(&mut p, (&p2(&pts)[..], wf)).map_err(|e| format!("{e:?}"))
@@ -190,11 +198,11 @@ fn main() {
                 let max_iter = r.range(1, 4) as usize;
                 parts = k;
                 fam = format!("{pf}/{wfam}");
-                params = format!("\"part_count\":{k},\"max_iter\":{max_iter}");
+                params = format!("\"part_count\":{k},\"max_iter\":{max_iter},\"weight_scale\":{wscale:e}");
                 input = format!("\"points\":{},\"weights\":{}", gen::json_points(&pts), json_i64s(&ws));
                 Box::new(move || {
                     let mut p = vec![usize::MAX; n];
-                    let wf: Vec<f64> = ws.iter().map(|x| *x as f64).collect();
+                    let wf: Vec<f64> = ws.iter().map(|x| *x as f64 * wscale).collect();
                     coupe::MultiJagged { part_count: k, max_iter }
                         .partition(&mut p, (&p2(&pts)[..], &wf[..]))
                         .unwrap();
@@ -210,12 +218,12 @@ fn main() {
                 parts = k;
                 fam = wfam.to_string();
                 let fw = r.chance(1, 3);
-                params = format!("\"part_count\":{k},\"f64_weights\":{fw}");
+                params = format!("\"part_count\":{k},\"f64_weights\":{fw},\"weight_scale\":{wscale:e}");
                 input = format!("\"weights\":{}", json_i64s(&ws));
                 let greedy = alg == "greedy";
                 Box::new(move || {
                     let mut p = vec![usize::MAX; n];
-                    let wf: Vec<f64> = ws.iter().map(|x| *x as f64).collect();
+                    let wf: Vec<f64> = ws.iter().map(|x| *x as f64 * wscale).collect();
                     let res = match (greedy, fw) {
                         (true, false) => coupe::Greedy { part_count: k }.partition(&mut p, ws.iter().cloned()),
                         (true, true) => coupe::Greedy { part_count: k }.partition(&mut p, wf.iter().cloned()),
@@ -252,12 +260,12 @@ fn main() {
                 let fw = r.chance(1, 3);
                 parts = 1 << iter;
                 fam = wf2.to_string();
-                params = format!("\"dims\":{:?},\"iter_count\":{iter},\"f64_weights\":{fw}", dims);
+                params = format!("\"dims\":{:?},\"iter_count\":{iter},\"f64_weights\":{fw},\"weight_scale\":{wscale:e}", dims);
                 input = format!("\"weights\":{}", json_i64s(&ws2));
                 Box::new(move || {
                     let mut p = vec![usize::MAX; len];
                     let nz = |x: usize| NonZeroUsize::new(x).unwrap();
-                    let wf: Vec<f64> = ws2.iter().map(|x| *x as f64).collect();
+                    let wf: Vec<f64> = ws2.iter().map(|x| *x as f64 * wscale).collect();
                     if d == 2 {
                         let g = coupe::Grid::new_2d(nz(dims[0]), nz(dims[1]));
                         if fw { g.rcb(&mut p, &wf, iter) } else { g.rcb(&mut p, &ws2, iter) }
